@@ -82,6 +82,16 @@ CLAIMED = {
         note=TB + "Found and fixed in /repo: duration used the last sample in decode order (too short for reordered streams).",
         technique="Lean 4 proof (state-machine lemmas, max over fold) + correspondence check",
         ref="DESIGN.md section 5 C06"),
+    "C07": dict(
+        text="Kernel-checked: a Lean encoder of the AV1 sequence_header_obu syntax (Spec/Av1Syntax.lean, written from the syntax table, checked bit-for-bit against a real header) and the theorem that the model's "
+             "parser returns exactly profile, level, tier and colour configuration of EVERY well-formed non-monochrome header followed by arbitrary bits (all branches: reduced, timing/uvlc/decoder model, "
+             "1-32 operating points, frame ids, order hint, screen content, every color_config path); LEB128 (all 1-8 byte encodings), OBU header and extraction of the FIRST sequence-header OBU from a "
+             "temporal unit; the monochrome deviation is characterised exactly (partial theorem + counterexample) and recorded as known finding av1C-csp. Strict decoders (Spec/Strict.lean) of avcC/hvcC/av1C/"
+             "vpcC/esds/dOps and the sample entries are evaluated on the implementation's files against expectations computed from the submitted first keyframe by the Spec (first SPS/PPS/VPS by NAL type, "
+             "sequence-header OBU bytes, VP9 header fields), for progressive files and fragmented init segments; audio entry channel count / rate / ASC / dOps.",
+        note=TB + "Known findings (known_findings.json): audio-entry-rate (16.16 field cannot hold rates >= 65536), av1C-csp (monochrome; behaviour pinned by a unit test). VP9 'accepted form' is the library's own synthetic header layout.",
+        technique="Lean 4 proof (parser∘encoder round trip over the full AV1 header syntax) + strict-decoder oracle on the implementation's output + correspondence check",
+        ref="DESIGN.md section 5 C07"),
     "C08": dict(
         text="Kernel-checked: size of the moov does not depend on the offset values (only on their number), so the two-pass placeholder construction is exact for every sample count, track mix and "
              "metadata length; fast-start chunks are [ftyp, moov] + mdat with first offset ftypLen+|final moov|+8, standard chunks ftyp, mdat, moov with first offset ftypLen+8; both layouts use the "
